@@ -10,6 +10,7 @@ from ..engine.runner import Rule
 from ..engine.source import AnalysisError
 from ..engine.sqlfront import all_where_clauses, split_conjuncts
 from . import C10
+from . import shared
 from .common import callee_name, calls_in
 
 EXPLANATION = (
@@ -237,32 +238,13 @@ def rule_hold_counter(ctx):
 
 
 def rule_claims_replaced(ctx):
-    """R-C12-7: set_resources replaces the claims of a step: the old rows go, the declared ones come.
-
-    The dispatch predicate sums step_resource rows of RUNNING steps.  Rows of an earlier declaration that stay
-    behind keep counting against the pool (or collide with the new rows), rows that are not written let the
-    step run outside its declared claim.
-    """
-    sr = ctx.prog.func("step.Step.set_resources")
-    stmts = ctx.sql.stmts_in(sr.fq)
-    dele = [s_ for s_ in stmts if s_.kind == "DELETE" and ("DELETE", "step_resource", None, None) in s_.writes]
-    ins = [s_ for s_ in stmts if s_.kind == "INSERT" and any(w[0] == "INSERT" and w[1] == "step_resource" for w in s_.writes)]
-    top = {id(st_.value) for st_ in sr.node.body if isinstance(st_, ast.Expr)}
-    ctx.check(len(dele) == 1 and id(dele[0].site.call) in top and "node = ?" in re.sub(r"\s+", " ", dele[0].text).replace(" . ", "."), sr.fq, "the step's old claims are deleted unconditionally", "claims of the previous declaration survive a re-declaration", "DELETE FROM step_resource WHERE node = ?", where=ctx.where_of(sr))
-    ctx.check(len(ins) == 1 and ins[0].site.lineno > (dele[0].site.lineno if dele else 0), sr.fq, "the declared claims are inserted after the delete", "declared claims are not stored", "INSERT INTO step_resource")
-    if dele:
-        dt = re.sub(r"\s+", " ", dele[0].text).replace(" . ", ".").strip()
-        ctx.check(re.fullmatch(r"DELETE FROM step_resource WHERE node = \?", dt) is not None, sr.fq, "all claims of the step are deleted, not a subset", f"`{dt}` keeps some of the old rows: a claim that is re-declared with more units keeps its old number of units", "WHERE node = ? only")
-    if ins:
-        it = re.sub(r"\s+", " ", ins[0].text).upper()
-        ctx.check("ON CONFLICT" not in it and "OR IGNORE" not in it, sr.fq, "the insert does not defer to an existing row", "an existing row wins over the declared units", "plain INSERT")
-    callers = sorted({cs.caller.fq for sites in ctx.cg.sites.values() for cs in sites if callee_name(cs.node) == "set_resources"})
-    ctx.check({"workflow.Workflow.define_step", "step.Step.after_recycle"} <= set(callers), "step.Step.set_resources", "both declaration paths (new row, full recycle) store the claims", f"callers: {callers}", "define_step and after_recycle")
+    """R-C12-7 (body in shared.check_claims_replaced; also claimed by C10)."""
+    shared.check_claims_replaced(ctx)
 
 
 RULES = [
     Rule("R-C12-8", "steps (re)attached inside a hold block are re-examined (hold clause relies on the _safe recomputation)", C10.rule_step_overrides, min_instances=8),
-    Rule("R-C12-7", "resource claims are replaced on declaration", rule_claims_replaced, min_instances=5),
+    Rule("R-C12-7", "resource claims are replaced on declaration", rule_claims_replaced, min_instances=7),
     Rule("R-C12-1", "tasks start only inside the slot budget", rule_slots, min_instances=8),
     Rule("R-C12-2", "commands are launched only inside the budget", rule_commands_in_budget, min_instances=10),
     Rule("R-C12-3", "resource check-then-claim is atomic and exact", rule_resources, min_instances=8),
@@ -272,6 +254,7 @@ RULES = [
 ]
 
 MUTANTS = [
+    Mutant("declared-none-keeps-old-claims", "workflow.py", in_function("Workflow.define_step", replace_once("        step.set_resources(resources)\n", "        if resources:\n            step.set_resources(resources)\n")), ("R-C12-7",)),
     Mutant("claims-merged-not-replaced", "step.py", in_function("Step.set_resources", lambda t: t.replace('"DELETE FROM step_resource WHERE node = ?", (self.i,)', '"DELETE FROM step_resource WHERE node = ? AND name NOT IN (SELECT value FROM json_each(?))", (self.i, "[]")', 1).replace('"INSERT INTO step_resource VALUES (?, ?, ?)"', '"INSERT INTO step_resource VALUES (?, ?, ?) ON CONFLICT DO NOTHING"', 1) if '"DELETE FROM step_resource WHERE node = ?", (self.i,)' in t else None), ("R-C12-7",)),
     Mutant("old-claims-kept", "step.py", in_function("Step.set_resources", replace_once('        self.db.execute("DELETE FROM step_resource WHERE node = ?", (self.i,))\n', "")), ("R-C12-7",)),
     Mutant("claims-not-stored", "step.py", in_function("Step.set_resources", replace_once('        self.db.executemany("INSERT INTO step_resource VALUES (?, ?, ?)", rows)\n', "")), ("R-C12-7",)),
